@@ -17,6 +17,7 @@ func init() {
 			"PV-PAIR: regexp group labels are keyed by the index in re.SubexpNames(); PV-FRESH JSON path stack",
 			"PV-WHOLE: every json expression reaches the path table; PV-GUARD: a pattern capture is withheld iff it is named exactly `_`",
 			"PV-API IsValidLabel: first character by the identifier-start predicate, the rest by the identifier predicate (the names unpack and regexp accept)",
+			"LP-PIPE: each stage is fed the previous stage's line",
 		},
 		NotDecided: []string{"that jx, logfmt and regexp return the values that are in the document", "logqlpattern.Match's literal/capture alternation", "JSON path parsing"},
 		Rules: func(r *Run) {
@@ -28,7 +29,7 @@ func init() {
 				}
 				return false
 			})
-			ruleErrorPathKeepsLine(r, []string{"UnpackExtractor"})
+			ruleErrorPathKeepsLine(r, []string{"JSONExtractor", "LogfmtExtractor", "UnpackExtractor"})
 			ruleExtractorErrors(r)
 			ruleLabelIdentity(r)
 			ruleJSONLeaves(r)
@@ -43,6 +44,7 @@ func init() {
 			ruleJSONExprsAllPaths(r)
 			rulePatternUnnamedExact(r)
 			ruleIdentPredicates(r) // which field names unpack/regexp accept as labels
+			ruleLPPipe(r)          // a parser stage after unpack sees the unpacked line
 		},
 	})
 }
